@@ -353,3 +353,812 @@ Proof.
     rewrite gather_length, prog_length; [lia|].
     intros i Hi. rewrite Hp. now apply value_rev_in_range.
 Qed.
+
+(** * arithmetic of slicing a view: index space vs parent coordinates *)
+
+Lemma adj_pos_spec L c st x : 0 < c -> 0 <= L ->
+  match x with
+  | None => adjust_bound L c st x = (if st then L else 0)
+  | Some i => (i < 0 -> adjust_bound L c st x = Z.max 0 (i + L)) /\ (0 <= i -> adjust_bound L c st x = Z.min L i)
+  end.
+Proof.
+  intros Hc HL. unfold adjust_bound. replace (c <? 0) with false by lia.
+  destruct x as [i|]; [|reflexivity].
+  destruct (i <? 0) eqn:E1; [destruct (i + L <? 0) eqn:E2; lia|].
+  destruct (i >=? L) eqn:E3; lia.
+Qed.
+
+Lemma adj_neg_spec L c st x : c < 0 -> 0 <= L ->
+  match x with
+  | None => adjust_bound L c st x = (if st then -1 else L - 1)
+  | Some i => (i < 0 -> adjust_bound L c st x = Z.max (-1) (i + L)) /\ (0 <= i -> adjust_bound L c st x = Z.min (L - 1) i)
+  end.
+Proof.
+  intros Hc HL. unfold adjust_bound. replace (c <? 0) with true by lia.
+  destruct x as [i|]; [|reflexivity].
+  destruct (i <? 0) eqn:E1; [destruct (i + L <? 0) eqn:E2; lia|].
+  destruct (i >=? L) eqn:E3; lia.
+Qed.
+
+Lemma adj_pos_nonneg n K st s : 0 < K -> 0 <= n -> 0 <= s -> adjust_bound n K st (Some s) = Z.min n s.
+Proof. intros HK Hn Hs. now destruct (adj_pos_spec n K st (Some s) HK Hn) as [_ H]; apply H. Qed.
+
+Lemma adj_neg_neg n K st s : K < 0 -> 0 <= n -> s < 0 -> adjust_bound n K st (Some s) = Z.max (-1) (s + n).
+Proof. intros HK Hn Hs. now destruct (adj_neg_spec n K st (Some s) HK Hn) as [H _]; apply H. Qed.
+
+Lemma mulr_le C x y : 0 < C -> x <= y -> x * C <= y * C.
+Proof. intros. apply Z.mul_le_mono_nonneg_r; lia. Qed.
+
+Lemma mulr_lt C x y : 0 < C -> x < y -> x * C < y * C.
+Proof. intros. apply Z.mul_lt_mono_pos_r; lia. Qed.
+
+Lemma mulr_le_inv C x y : 0 < C -> x * C <= y * C -> x <= y.
+Proof. intros HC H. apply (Z.mul_le_mono_pos_r x y C HC). exact H. Qed.
+
+Lemma mulr_lt_inv C x y : 0 < C -> x * C < y * C -> x < y.
+Proof. intros HC H. apply (Z.mul_lt_mono_pos_r C x y HC). exact H. Qed.
+
+(** count of an ascending range whose bounds are the images of index bounds
+    under a scaling by [D] (up to the slack of a non-aligned stop) *)
+Lemma core_asc D c t m first stop : 0 < D -> 0 < c ->
+  (t <= 0 /\ m = 0 /\ stop <= first) \/
+  (0 < t /\ c * (m - 1) < t <= c * m /\ D * (t - 1) < stop - first <= D * t) ->
+  range_len first stop (D * c) = m.
+Proof.
+  intros HD Hc [(Ht & -> & Hs)|(Ht & Hm & Hd)].
+  - apply range_len_pos_empty; nia.
+  - apply range_len_pos_char; [nia|]. right. split; [nia|].
+    assert (D * (c * (m - 1)) <= D * (t - 1)) by (apply Z.mul_le_mono_nonneg_l; lia).
+    assert (D * t <= D * (c * m)) by (apply Z.mul_le_mono_nonneg_l; lia).
+    split; lia.
+Qed.
+
+Lemma core_desc D c t m first stop : 0 < D -> 0 < c ->
+  (t <= 0 /\ m = 0 /\ first <= stop) \/
+  (0 < t /\ c * (m - 1) < t <= c * m /\ D * (t - 1) < first - stop <= D * t) ->
+  range_len first stop (- (D * c)) = m.
+Proof.
+  intros HD Hc H. rewrite <- range_len_opp. rewrite Z.opp_involutive.
+  apply core_asc with (t := t); [assumption|assumption|].
+  destruct H as [H|H]; [left|right]; lia.
+Qed.
+
+(** ** forward slice of a forward view *)
+
+Lemma ff_scale S E C L c sg ep sidx eidx m :
+  0 < C -> 0 < c -> 0 < L -> C * (L - 1) < E - S <= C * L ->
+  0 <= sg -> sidx = Z.min sg L -> eidx = Z.max 0 (Z.min ep L) ->
+  (eidx <= sidx /\ m = 0) \/ (sidx < eidx /\ 0 < m /\ c * (m - 1) < eidx - sidx <= c * m) ->
+  range_len (S + sg * C) (Z.min E (S + ep * C)) (C * c) = m /\
+  (0 < m -> sidx = sg /\ sg < L /\ sg < ep).
+Proof.
+  intros HC Hc HL HLc Hsg Hsidx Heidx Hm.
+  split.
+  - apply core_asc with (t := eidx - sidx); [assumption|assumption|].
+    destruct Hm as [[Hle Hm]|(Hlt & Hm0 & Hm)].
+    + left. split; [lia|]. split; [assumption|].
+      destruct (Z_le_gt_dec ep sg) as [H|H].
+      * pose proof (mulr_le C ep sg HC H). lia.
+      * assert (H1 : L <= sg) by lia. pose proof (mulr_le C L sg HC H1). lia.
+    + right. split; [lia|]. split; [assumption|].
+      assert (Hsl : sg < L) by lia. assert (Hsidx' : sidx = sg) by lia.
+      destruct (Z_le_gt_dec L ep) as [H|H].
+      * assert (Heidx' : eidx = L) by lia. pose proof (mulr_le C L ep HC H).
+        replace (Z.min E (S + ep * C)) with E by lia. rewrite Heidx', Hsidx'.
+        clear - HLc. lia.
+      * assert (Heidx' : eidx = ep) by lia. assert (H1 : ep + 1 <= L) by lia.
+        pose proof (mulr_le C (ep + 1) L HC H1).
+        replace (Z.min E (S + ep * C)) with (S + ep * C) by lia. rewrite Heidx', Hsidx'.
+        clear - HC. lia.
+  - intros Hm0. destruct Hm as [[_ Hm]|(Hlt & _)]; lia.
+Qed.
+
+(** * the constructor stores Python's adjusted slice indices *)
+
+Lemma ivp_spec n a b K : 0 < K -> 0 <= n ->
+  input_vals_pos_step n a b K =
+  (if adjust_bound n K false a <? adjust_bound n K true b
+   then (adjust_bound n K false a, adjust_bound n K true b, K) else (0, 0, 1)).
+Proof.
+  intros HK Hn.
+  pose proof (adj_pos_spec n K false a HK Hn) as Ha.
+  pose proof (adj_pos_spec n K true b HK Hn) as Hb.
+  set (A := adjust_bound n K false a) in *. set (B := adjust_bound n K true b) in *.
+  unfold input_vals_pos_step.
+  set (s0 := match a with None => 0 | Some s => s end).
+  set (e0 := match b with None => n | Some e => e end).
+  assert (HA : (s0 < 0 -> A = Z.max 0 (s0 + n)) /\ (0 <= s0 -> A = Z.min n s0)).
+  { subst s0. destruct a; [exact Ha|]. cbv beta iota in Ha. lia. }
+  assert (HB : (e0 < 0 -> B = Z.max 0 (e0 + n)) /\ (0 <= e0 -> B = Z.min n e0)).
+  { subst e0. destruct b; [exact Hb|]. cbv beta iota in Hb. lia. }
+  clearbody A B s0 e0. clear Ha Hb.
+  destruct ((s0 >? 0) && (s0 >=? n)) eqn:E1.
+  { replace (A <? B) with false by lia. reflexivity. }
+  destruct ((e0 <? 0) && (Z.abs e0 >=? n)) eqn:E2.
+  { replace (A <? B) with false by lia. reflexivity. }
+  assert (H1 : (if s0 <? 0 then Z.max (n + s0) 0 else s0) = A) by (destruct (s0 <? 0) eqn:E; lia).
+  assert (H2 : (if e0 >? 0 then Z.min n e0 else if e0 <? 0 then e0 + n else e0) = B)
+    by (destruct (e0 >? 0) eqn:E; [lia|destruct (e0 <? 0) eqn:E'; lia]).
+  rewrite H1, H2.
+  destruct (A >=? B) eqn:E3; [replace (A <? B) with false by lia|replace (A <? B) with true by lia]; reflexivity.
+Qed.
+
+Lemma ivn_spec n a b K s e K' : K < 0 -> 0 <= n ->
+  input_vals_neg_step n a b K = (s, e, K') ->
+  (adjust_bound n K true b < adjust_bound n K false a /\
+   s = adjust_bound n K false a - n /\ e = adjust_bound n K true b - n /\ K' = K) \/
+  (adjust_bound n K false a <= adjust_bound n K true b /\ s = e /\ (K' = K \/ K' = 1)).
+Proof.
+  intros HK Hn.
+  pose proof (adj_neg_spec n K false a HK Hn) as Ha.
+  pose proof (adj_neg_spec n K true b HK Hn) as Hb.
+  set (A := adjust_bound n K false a) in *. set (B := adjust_bound n K true b) in *.
+  unfold input_vals_neg_step.
+  clearbody A B.
+  destruct a as [s0|];
+    [destruct Ha as [Ha1 Ha2]; destruct (s0 >=? n) eqn:E1;
+       [|destruct (s0 >=? 0) eqn:E2; [|destruct (s0 <? - n) eqn:E3]]
+    |cbv beta iota in Ha];
+  (destruct b as [e0|]; [destruct Hb as [Hb1 Hb2]; destruct (e0 >=? 0) eqn:E4|cbv beta iota in Hb]);
+  try match goal with |- context[if ?c then _ else _] => destruct c eqn:E5 end;
+  intros [= <- <- <-]; lia.
+Qed.
+
+Lemma value_zero {A} n off (p : list A) : value (mkV 0 0 1 n off) p = [].
+Proof.
+  unfold value. cbn [start stop step]. apply py_slice_empty.
+  apply range_len_pos_empty; [lia|].
+  unfold adjust_bound. replace (0 <? 0) with false by lia. replace (1 <? 0) with false by lia.
+  destruct (0 >=? zlen p); lia.
+Qed.
+
+Lemma mk_view_step_unfold n a b K off : K <> 0 ->
+  mk_view n a b (Some K) off =
+  (let '(s, e, c) := if K >? 0 then input_vals_pos_step n a b K else input_vals_neg_step n a b K in
+   Ok (mkV s e c n off)).
+Proof. intros HK. destruct K; [lia|reflexivity|reflexivity]. Qed.
+
+(** the constructor realises exactly Python's [p[a:b:c]] *)
+Lemma value_mk_view_step {A} (p : list A) n a b K off v : zlen p = n -> K <> 0 ->
+  mk_view n a b (Some K) off = Ok v -> value v p = py_slice p a b K.
+Proof.
+  intros Hp HK. pose proof (zlen_nonneg p) as Hn. rewrite Hp in Hn.
+  rewrite (mk_view_step_unfold n a b K off HK).
+  destruct (Z_lt_le_dec 0 K) as [HK'|HK'].
+  - replace (K >? 0) with true by lia.
+    rewrite (ivp_spec n a b K HK' Hn).
+    pose proof (adjust_bound_pos n K false a Hn HK') as HA.
+    pose proof (adjust_bound_pos n K true b Hn HK') as HB.
+    rewrite py_slice_unfold, Hp.
+    set (A0 := adjust_bound n K false a) in *. set (B0 := adjust_bound n K true b) in *.
+    destruct (A0 <? B0) eqn:E; cbv beta iota; intros [= <-].
+    + unfold value. cbn [start stop step]. rewrite py_slice_unfold, Hp.
+      rewrite !adj_pos_nonneg by lia.
+      replace (Z.min n A0) with A0 by lia. replace (Z.min n B0) with B0 by lia. reflexivity.
+    + rewrite value_zero. rewrite range_len_pos_empty by lia. reflexivity.
+  - assert (HK'' : K < 0) by lia. clear HK'. rename HK'' into HK'. replace (K >? 0) with false by lia.
+    destruct (input_vals_neg_step n a b K) as [[s e] K2] eqn:Eiv.
+    pose proof (ivn_spec n a b K s e K2 HK' Hn Eiv) as Hspec.
+    pose proof (adjust_bound_neg n K false a Hn HK') as HA.
+    pose proof (adjust_bound_neg n K true b Hn HK') as HB.
+    rewrite py_slice_unfold, Hp.
+    set (A0 := adjust_bound n K false a) in *. set (B0 := adjust_bound n K true b) in *.
+    cbv beta iota. intros [= <-]. unfold value. cbn [start stop step].
+    destruct Hspec as [(Hlt & -> & -> & ->)|(Hle & -> & HK2)].
+    + rewrite py_slice_unfold, Hp.
+      rewrite !adj_neg_neg by lia.
+      replace (Z.max (-1) (A0 - n + n)) with A0 by lia. replace (Z.max (-1) (B0 - n + n)) with B0 by lia.
+      reflexivity.
+    + rewrite (range_len_neg_empty A0 B0 K) by lia. cbn [Z.to_nat prog gather flat_map].
+      apply py_slice_empty.
+      set (x := adjust_bound (zlen p) K2 false (Some e)).
+      assert (Hx : adjust_bound (zlen p) K2 true (Some e) = x) by reflexivity.
+      rewrite Hx. destruct HK2 as [->| ->].
+      * apply range_len_neg_empty; lia.
+      * apply range_len_pos_empty; lia.
+Qed.
+
+Lemma value_mk_view_lemma {A} (p : list A) n a b c off v : zlen p = n -> c <> Some 0 ->
+  mk_view n a b c off = Ok v ->
+  value v p = py_slice p a b (match c with Some k => k | None => 1 end).
+Proof.
+  intros Hp Hc. destruct c as [K|].
+  - apply value_mk_view_step; [assumption|congruence].
+  - intros H. apply (value_mk_view_step p n a b 1 off v Hp); [lia|exact H].
+Qed.
+
+Lemma zero_slice_eq fl v :
+  zero_slice fl v = Ok (mkV 0 0 1 (match fl with FSeqView => 0 | FSeqDataView => seq_len v end) 0).
+Proof. destruct fl; reflexivity. Qed.
+
+Lemma value_zero_slice {A} fl v v' (p : list A) : zero_slice fl v = Ok v' -> value v' p = [].
+Proof. rewrite zero_slice_eq. intros [= <-]. apply value_zero. Qed.
+
+(** ** the four direction cases of [__getitem__(slice)] *)
+
+Lemma value_ff {A} fl v (p : list A) a b c v' :
+  WF v -> 0 < step v -> zlen p = seq_len v -> 0 < vlen v -> 0 < c ->
+  get_forward_slice_from_forward fl v
+    (match a with Some x => x | None => 0 end) (match b with Some x => x | None => vlen v end) c = Ok v' ->
+  value v' p = py_slice (value v p) a b c.
+Proof.
+  intros Hwf HC Hp HL Hc.
+  destruct (wf_fwd_facts v Hwf HC) as (Hn & HSE & HEn & _ & _ & HLc).
+  rewrite (value_fwd v p Hwf HC Hp).
+  rewrite py_slice_gather_prog;
+    [|lia|lia|intros i Hi; rewrite Hp; now apply value_fwd_in_range].
+  unfold get_forward_slice_from_forward, rebuild.
+  set (S := start v) in *. set (E := stop v) in *. set (C := step v) in *. set (L := vlen v) in *.
+  set (n := seq_len v) in *.
+  set (a0 := match a with Some x => x | None => 0 end).
+  set (b0 := match b with Some x => x | None => L end).
+  set (s := if a0 >=? 0 then S + a0 * C else Z.max (S + L * C + a0 * C) S).
+  set (e := if b0 >? E then E else if b0 >=? 0 then S + b0 * C else S + L * C + b0 * C).
+  set (sidx := adjust_bound L c false a). set (eidx := adjust_bound L c true b).
+  set (m := range_len sidx eidx c).
+  pose proof (adj_pos_spec L c false a Hc ltac:(lia)) as Ha. fold sidx in Ha.
+  pose proof (adj_pos_spec L c true b Hc ltac:(lia)) as Hb. fold eidx in Hb.
+  pose proof (range_len_pos_cases sidx eidx c Hc) as Hm. fold m in Hm.
+  clearbody sidx eidx m S E C L n.
+  (* index form of the model's start *)
+  assert (Hs : exists sg, s = S + sg * C /\ 0 <= sg /\ sidx = Z.min sg L).
+  { subst s a0. clear - Ha HC HL. destruct a as [x|].
+    - destruct Ha as [Ha1 Ha2]. destruct (x >=? 0) eqn:Ex.
+      + exists x. split; [reflexivity|]. lia.
+      + exists (Z.max (L + x) 0). split; [|lia].
+        assert (Hr : S + L * C + x * C = S + (L + x) * C) by ring. rewrite Hr.
+        destruct (Z.max_spec (L + x) 0) as [[H1 ->]|[H1 ->]].
+        * pose proof (mulr_le C (L + x) 0 HC ltac:(lia)). lia.
+        * pose proof (mulr_le C 0 (L + x) HC ltac:(lia)). lia.
+    - exists 0. cbv beta iota in Ha. split; [reflexivity|]. lia. }
+  destruct Hs as (sg & Hs & Hsg0 & Hsidx).
+  assert (He : exists ep, Z.min E e = Z.min E (S + ep * C) /\ (e < 0 -> ep < 0) /\
+                          (e < s -> S + ep * C < s \/ E < s) /\ eidx = Z.max 0 (Z.min ep L)).
+  { subst e b0. clear - Hb HC HL HLc HSE. destruct b as [y|].
+    - destruct Hb as [Hb1 Hb2]. destruct (y >? E) eqn:Ey1; [|destruct (y >=? 0) eqn:Ey2].
+      + exists y. assert (H0 : 0 < y) by lia.
+        assert (y * 1 <= y * C) by (apply Z.mul_le_mono_nonneg_l; lia).
+        assert ((L - 1) * 1 <= (L - 1) * C) by (apply Z.mul_le_mono_nonneg_l; lia).
+        split; [lia|]. split; [lia|]. split; [lia|]. lia.
+      + exists y. split; [reflexivity|]. pose proof (mulr_le C 0 y HC ltac:(lia)).
+        split; [lia|]. split; [lia|]. lia.
+      + exists (L + y). split; [f_equal; ring|].
+        split; [intros H; destruct (Z_lt_le_dec (L + y) 0) as [H'|H']; [assumption|];
+                pose proof (mulr_le C 0 (L + y) HC H'); lia|].
+        split; [intros; left; lia|]. lia.
+    - exists L. cbv beta iota in Hb. pose proof (mulr_le C 1 L HC ltac:(lia)).
+      replace (L >? E) with false by nia. replace (L >=? 0) with true by lia.
+      split; [reflexivity|]. split; [lia|]. split; [lia|]. lia. }
+  destruct He as (ep & He & Heneg & Hes & Heidx).
+  destruct (ff_scale S E C L c sg ep sidx eidx m HC Hc HL HLc Hsg0 Hsidx Heidx Hm) as [Hcount Hpos].
+  assert (Hnz : 0 < m -> 0 <= s /\ 0 <= e /\ s <= e /\ s <= n).
+  { intros Hm0. destruct (Hpos Hm0) as (_ & HsgL & Hsgep).
+    pose proof (mulr_le C 0 sg HC Hsg0). pose proof (mulr_le C sg (L - 1) HC ltac:(lia)).
+    pose proof (mulr_le C (sg + 1) ep HC ltac:(lia)).
+    clear - Hs HSE HEn HLc Heneg Hes H H0 H1 HsgL Hsgep Hsg0.
+    assert (0 <= s) by lia. assert (s <= n) by lia. assert (0 <= e) by lia. assert (~ e < s) by lia. lia. }
+  clearbody s e. clear Ha Hb a0 b0.
+  destruct ((s <? 0) || (e <? 0)) eqn:Ez1;
+    [intros Hz; rewrite (value_zero_slice fl v v' p Hz);
+     replace (Z.to_nat m) with O by lia; reflexivity|].
+  destruct (e <? s) eqn:Ez2;
+    [intros Hz; rewrite (value_zero_slice fl v v' p Hz);
+     replace (Z.to_nat m) with O by lia; reflexivity|].
+  destruct (s >? n) eqn:Ez3;
+    [intros Hz; rewrite (value_zero_slice fl v v' p Hz);
+     replace (Z.to_nat m) with O by lia; reflexivity|].
+  intros Hmk.
+  assert (HCc : 0 < C * c) by (apply Z.mul_pos_pos; assumption).
+  rewrite (value_mk_view_step p n _ _ (C * c) _ v' Hp ltac:(clear - HCc; lia) Hmk).
+  rewrite py_slice_unfold, Hp.
+  rewrite !adj_pos_nonneg by (clear - HCc Hn Ez1 HSE; lia).
+  replace (Z.min n s) with s by (clear - Ez3; lia).
+  replace (Z.min n (Z.min E e)) with (Z.min E e) by (clear - HEn; lia).
+  rewrite He, Hs, Hcount.
+  apply gather_prog_eq; [reflexivity|].
+  intros Hm0. destruct (Hpos Hm0) as (-> & _). reflexivity.
+Qed.
+
+(** ** forward slice of a reverse view (mirror image of the previous case) *)
+
+Lemma mulr_le_neg C x y : C < 0 -> x <= y -> y * C <= x * C.
+Proof. intros. apply Z.mul_le_mono_nonpos_r; lia. Qed.
+
+Lemma fr_scale n S E C L c sg ep sidx eidx m :
+  C < 0 -> 0 < c -> 0 < L -> (- C) * (L - 1) < S - E <= (- C) * L -> - n - 1 <= E ->
+  0 <= sg -> sidx = Z.min sg L -> eidx = Z.max 0 (Z.min ep L) ->
+  (eidx <= sidx /\ m = 0) \/ (sidx < eidx /\ 0 < m /\ c * (m - 1) < eidx - sidx <= c * m) ->
+  range_len (Z.max (-1) (S + sg * C + n)) (Z.max E (S + ep * C) + n) (C * c) = m /\
+  (0 < m -> sidx = sg /\ sg < L /\ sg < ep /\ Z.max (-1) (S + sg * C + n) = S + sg * C + n).
+Proof.
+  intros HC Hc HL HLc HEn Hsg Hsidx Heidx Hm.
+  assert (HD : 0 < - C) by lia.
+  destruct (ff_scale (- S - n) (- E - n) (- C) L c sg ep sidx eidx m HD Hc HL ltac:(lia) Hsg Hsidx Heidx Hm)
+    as [Hcount Hpos].
+  assert (Hfirst : 0 < m -> Z.max (-1) (S + sg * C + n) = S + sg * C + n).
+  { intros Hm0. destruct (Hpos Hm0) as (_ & HsgL & _).
+    pose proof (mulr_le_neg C sg (L - 1) HC ltac:(lia)). lia. }
+  split.
+  - destruct (Z_lt_le_dec 0 m) as [Hm0|Hm0].
+    + rewrite (Hfirst Hm0). rewrite <- range_len_opp.
+      replace (- (S + sg * C + n)) with (- S - n + sg * - C) by ring.
+      replace (- (Z.max E (S + ep * C) + n)) with (Z.min (- E - n) (- S - n + ep * - C)) by lia.
+      replace (- (C * c)) with (- C * c) by ring. exact Hcount.
+    + destruct Hm as [[Hle Hm]|(Hlt & Hm1 & _)]; [|lia]. subst m.
+      apply range_len_neg_empty; [nia|].
+      destruct (Z_le_gt_dec ep sg) as [H|H].
+      * pose proof (mulr_le_neg C ep sg HC H). lia.
+      * assert (H1 : L <= sg) by lia. pose proof (mulr_le_neg C L sg HC H1). lia.
+  - intros Hm0. destruct (Hpos Hm0) as (H1 & H2 & H3). repeat split; try assumption. now apply Hfirst.
+Qed.
+
+Lemma value_fr {A} fl v (p : list A) a b c v' :
+  WF v -> step v < 0 -> zlen p = seq_len v -> 0 < vlen v -> 0 < c ->
+  get_forward_slice_from_reverse fl v
+    (match a with Some x => x | None => 0 end) (match b with Some x => x | None => vlen v end) c = Ok v' ->
+  value v' p = py_slice (value v p) a b c.
+Proof.
+  intros Hwf HC Hp HL Hc.
+  destruct (wf_rev_facts v Hwf HC) as (Hn & HSE & HS1 & _ & _ & HLc).
+  rewrite (value_rev v p Hwf HC Hp).
+  rewrite py_slice_gather_prog;
+    [|lia|lia|intros i Hi; rewrite Hp; now apply value_rev_in_range].
+  unfold get_forward_slice_from_reverse, rebuild.
+  set (S := start v) in *. set (E := stop v) in *. set (C := step v) in *. set (L := vlen v) in *.
+  set (n := seq_len v) in *.
+  set (a0 := match a with Some x => x | None => 0 end).
+  set (b0 := match b with Some x => x | None => L end).
+  set (s := if a0 >=? 0 then S + a0 * C else if Z.abs a0 >? L then S else S + L * C + a0 * C).
+  set (e := if b0 >=? 0 then S + b0 * C else S + L * C + b0 * C).
+  set (sidx := adjust_bound L c false a). set (eidx := adjust_bound L c true b).
+  set (m := range_len sidx eidx c).
+  pose proof (adj_pos_spec L c false a Hc ltac:(lia)) as Ha. fold sidx in Ha.
+  pose proof (adj_pos_spec L c true b Hc ltac:(lia)) as Hb. fold eidx in Hb.
+  pose proof (range_len_pos_cases sidx eidx c Hc) as Hm. fold m in Hm.
+  clearbody sidx eidx m S E C L n.
+  assert (Hs : exists sg, s = S + sg * C /\ 0 <= sg /\ sidx = Z.min sg L).
+  { subst s a0. clear - Ha HC HL. destruct a as [x|].
+    - destruct Ha as [Ha1 Ha2]. destruct (x >=? 0) eqn:Ex.
+      + exists x. split; [reflexivity|]. lia.
+      + destruct (Z.abs x >? L) eqn:Ex2.
+        * exists 0. split; [ring|]. lia.
+        * exists (L + x). split; [ring|]. lia.
+    - exists 0. cbv beta iota in Ha. split; [reflexivity|]. lia. }
+  destruct Hs as (sg & Hs & Hsg0 & Hsidx).
+  assert (He : exists ep, e = S + ep * C /\ eidx = Z.max 0 (Z.min ep L)).
+  { subst e b0. clear - Hb HC HL. destruct b as [y|].
+    - destruct Hb as [Hb1 Hb2]. destruct (y >=? 0) eqn:Ey2.
+      + exists y. split; [reflexivity|]. lia.
+      + exists (L + y). split; [ring|]. lia.
+    - exists L. cbv beta iota in Hb. replace (L >=? 0) with true by lia. split; [reflexivity|]. lia. }
+  destruct He as (ep & He & Heidx).
+  destruct (fr_scale n S E C L c sg ep sidx eidx m HC Hc HL HLc ltac:(lia) Hsg0 Hsidx Heidx Hm) as [Hcount Hpos].
+  assert (Hnz : 0 < m -> s < 0 /\ e < 0).
+  { intros Hm0. destruct (Hpos Hm0) as (_ & HsgL & Hsgep & _).
+    pose proof (mulr_le_neg C 0 sg HC Hsg0). pose proof (mulr_le_neg C 0 ep HC ltac:(lia)).
+    clear - Hs He HS1 H H0. lia. }
+  clearbody s e. clear Ha Hb a0 b0.
+  destruct ((s >=? 0) || (e >=? 0)) eqn:Ez1;
+    [intros Hz; rewrite (value_zero_slice fl v v' p Hz);
+     replace (Z.to_nat m) with O by lia; reflexivity|].
+  intros Hmk.
+  assert (HCc : C * c < 0) by (apply Z.mul_neg_pos; assumption).
+  rewrite (value_mk_view_step p n _ _ (C * c) _ v' Hp ltac:(clear - HCc; lia) Hmk).
+  rewrite py_slice_unfold, Hp.
+  rewrite !adj_neg_neg by (clear - HCc Hn Ez1 HSE HS1; lia).
+  replace (Z.max (-1) (Z.max E e + n)) with (Z.max E e + n) by (clear - HSE; lia).
+  rewrite He, Hs, Hcount.
+  apply gather_prog_eq; [reflexivity|].
+  intros Hm0. destruct (Hpos Hm0) as (-> & _ & _ & ->). ring.
+Qed.
+
+(** ** reverse slice of a forward view *)
+
+Lemma rf_scale S C L c sg ep sidx eidx m :
+  0 < C -> c < 0 -> 0 < L -> 0 <= S ->
+  sg <= L - 1 -> sidx = Z.max (-1) sg -> eidx = Z.max (-1) (Z.min (L - 1) ep) ->
+  (sidx <= eidx /\ m = 0) \/ (eidx < sidx /\ 0 < m /\ (- c) * (m - 1) < sidx - eidx <= (- c) * m) ->
+  range_len (Z.max (-1) (S + sg * C)) (Z.max (-1) (Z.max (S + ep * C) (S - 1))) (C * c) = m /\
+  (0 < m -> sidx = sg /\ 0 <= sg /\ ep < sg /\ Z.max (-1) (S + sg * C) = S + sg * C).
+Proof.
+  intros HC Hc HL HS Hsg Hsidx Heidx Hm.
+  assert (Hpos : 0 < m -> sidx = sg /\ 0 <= sg /\ ep < sg /\ Z.max (-1) (S + sg * C) = S + sg * C).
+  { intros Hm0. destruct Hm as [[_ Hm]|(Hlt & _)]; [lia|].
+    assert (H0 : 0 <= sg) by lia. pose proof (mulr_le C 0 sg HC H0). lia. }
+  split; [|exact Hpos].
+  replace (C * c) with (- (C * - c)) by ring.
+  apply core_desc with (t := sidx - eidx); [assumption|lia|].
+  destruct Hm as [[Hle Hm]|(Hlt & Hm0 & Hm)].
+  - left. split; [lia|]. split; [assumption|].
+    destruct (Z_lt_le_dec sg 0) as [H|H].
+    + pose proof (mulr_le C sg (-1) HC ltac:(lia)). lia.
+    + assert (H1 : sg <= ep) by lia. pose proof (mulr_le C sg ep HC H1). lia.
+  - right. split; [lia|]. split; [lia|].
+    destruct (Hpos Hm0) as (Hs1 & Hs2 & Hs3 & Hs4). rewrite Hs4.
+    destruct (Z_lt_le_dec ep 0) as [H|H].
+    + pose proof (mulr_le C ep (-1) HC ltac:(lia)).
+      replace (Z.max (-1) (Z.max (S + ep * C) (S - 1))) with (S - 1) by lia.
+      replace eidx with (-1) by lia. rewrite Hs1. clear - HC. lia.
+    + pose proof (mulr_le C 0 ep HC H).
+      replace (Z.max (-1) (Z.max (S + ep * C) (S - 1))) with (S + ep * C) by lia.
+      replace eidx with ep by lia. rewrite Hs1. clear - HC. lia.
+Qed.
+
+(** index forms of the model's reverse-slice start and stop (shared by the
+    forward and the reverse view case) *)
+Lemma rev_start_index L c a sidx : c < 0 -> 0 < L ->
+  sidx = adjust_bound L c false a ->
+  let a0 := match a with Some x => x | None => -1 end in
+  exists sg, (if a0 >=? L then L - 1 else if a0 >=? 0 then a0 else L + a0) = sg /\
+             sg <= L - 1 /\ sidx = Z.max (-1) sg.
+Proof.
+  intros Hc HL -> a0. pose proof (adj_neg_spec L c false a Hc ltac:(lia)) as Ha.
+  subst a0. destruct a as [x|].
+  - destruct Ha as [Ha1 Ha2]. destruct (x >=? L) eqn:E1; [|destruct (x >=? 0) eqn:E2].
+    + exists (L - 1). split; [reflexivity|]. lia.
+    + exists x. split; [reflexivity|]. lia.
+    + exists (L + x). split; [reflexivity|]. lia.
+  - cbv beta iota in Ha. exists (L - 1). replace (-1 >=? L) with false by lia.
+    replace (-1 >=? 0) with false by lia. split; [lia|]. lia.
+Qed.
+
+Lemma rev_stop_index L c b eidx : c < 0 -> 0 < L ->
+  eidx = adjust_bound L c true b ->
+  let b0 := match b with Some x => x | None => - L - 1 end in
+  exists ep, (if b0 >=? 0 then b0 else L + b0) = ep /\ eidx = Z.max (-1) (Z.min (L - 1) ep) /\
+             (0 <= b0 -> ep = b0) /\ (b0 < 0 -> ep = L + b0).
+Proof.
+  intros Hc HL -> b0. pose proof (adj_neg_spec L c true b Hc ltac:(lia)) as Hb.
+  subst b0. destruct b as [y|].
+  - destruct Hb as [Hb1 Hb2]. destruct (y >=? 0) eqn:E1.
+    + exists y. split; [reflexivity|]. lia.
+    + exists (L + y). split; [reflexivity|]. lia.
+  - cbv beta iota in Hb. exists (-1). replace (- L - 1 >=? 0) with false by lia. split; [lia|]. lia.
+Qed.
+
+Lemma value_rf {A} fl v (p : list A) a b c v' :
+  WF v -> 0 < step v -> zlen p = seq_len v -> 0 < vlen v -> c < 0 ->
+  get_reverse_slice_from_forward fl v
+    (match a with Some x => x | None => -1 end) (match b with Some x => x | None => - vlen v - 1 end) c = Ok v' ->
+  value v' p = py_slice (value v p) a b c.
+Proof.
+  intros Hwf HC Hp HL Hc.
+  destruct (wf_fwd_facts v Hwf HC) as (Hn & HSE & HEn & _ & _ & HLc).
+  rewrite (value_fwd v p Hwf HC Hp).
+  rewrite py_slice_gather_prog;
+    [|lia|lia|intros i Hi; rewrite Hp; now apply value_fwd_in_range].
+  unfold get_reverse_slice_from_forward, rebuild.
+  set (S := start v) in *. set (E := stop v) in *. set (C := step v) in *. set (L := vlen v) in *.
+  set (n := seq_len v) in *.
+  set (sidx := adjust_bound L c false a). set (eidx := adjust_bound L c true b).
+  set (m := range_len sidx eidx c).
+  destruct (rev_start_index L c a sidx Hc HL eq_refl) as (sg & Hsg & HsgL & Hsidx).
+  destruct (rev_stop_index L c b eidx Hc HL eq_refl) as (ep & Hep & Heidx & Hep1 & Hep2).
+  pose proof (range_len_neg_cases sidx eidx c Hc) as Hm. fold m in Hm.
+  set (a0 := match a with Some x => x | None => -1 end) in *.
+  set (b0 := match b with Some x => x | None => - L - 1 end) in *.
+  clearbody sidx eidx m S E C L n a0 b0.
+  set (s := if a0 >=? L then S + L * C - C - n else if a0 >=? 0 then S + a0 * C - n else S + L * C + a0 * C - n).
+  assert (Hs : s = S + sg * C - n).
+  { subst s. clear - Hsg. destruct (a0 >=? L); [|destruct (a0 >=? 0)]; subst sg; ring. }
+  set (e := if b0 >=? 0 then S + b0 * C - n else S + L * C + b0 * C - n).
+  assert (He : e = S + ep * C - n).
+  { subst e. clear - Hep. destruct (b0 >=? 0); subst ep; ring. }
+  destruct (rf_scale S C L c sg ep sidx eidx m HC Hc HL ltac:(lia) HsgL Hsidx Heidx Hm) as [Hcount Hpos].
+  pose proof (mulr_le C 1 L HC ltac:(lia)) as HCL.
+  assert (Hnz : 0 < m -> b0 < n /\ s < 0 /\ e < 0).
+  { intros Hm0. destruct (Hpos Hm0) as (_ & Hsg0 & Hepsg & _).
+    pose proof (mulr_le C sg (L - 1) HC HsgL). pose proof (mulr_le C ep (L - 1) HC ltac:(lia)).
+    assert ((L - 1) * 1 <= (L - 1) * C) by (apply Z.mul_le_mono_nonneg_l; lia).
+    clear - Hs He HSE HEn HLc H H0 H1 Hep1 Hep2 Hepsg HsgL. lia. }
+  clearbody s e.
+  destruct (b0 >=? n) eqn:Ez0;
+    [intros Hz; rewrite (value_zero_slice fl v v' p Hz);
+     replace (Z.to_nat m) with O by lia; reflexivity|].
+  destruct ((s >=? 0) || (e >=? 0)) eqn:Ez1;
+    [intros Hz; rewrite (value_zero_slice fl v v' p Hz);
+     replace (Z.to_nat m) with O by lia; reflexivity|].
+  intros Hmk.
+  assert (HCc : C * c < 0) by (apply Z.mul_pos_neg; assumption).
+  rewrite (value_mk_view_step p n _ _ (C * c) _ v' Hp ltac:(clear - HCc; lia) Hmk).
+  rewrite py_slice_unfold, Hp.
+  rewrite !adj_neg_neg by (clear - HCc Hn Ez1 HSE HEn; lia).
+  rewrite He, Hs.
+  replace (S + sg * C - n + n) with (S + sg * C) by ring.
+  replace (Z.max (S + ep * C - n) (S - n - 1) + n) with (Z.max (S + ep * C) (S - 1)) by lia.
+  rewrite Hcount.
+  apply gather_prog_eq; [reflexivity|].
+  intros Hm0. destruct (Hpos Hm0) as (-> & _ & _ & ->). reflexivity.
+Qed.
+
+(** ** reverse slice of a reverse view (the result is a forward view) *)
+
+Lemma rr_scale S' C L c sg ep sidx eidx m :
+  C < 0 -> c < 0 -> 0 < L ->
+  sg <= L - 1 -> sidx = Z.max (-1) sg -> eidx = Z.max (-1) (Z.min (L - 1) ep) ->
+  (sidx <= eidx /\ m = 0) \/ (eidx < sidx /\ 0 < m /\ (- c) * (m - 1) < sidx - eidx <= (- c) * m) ->
+  let e := if ep <? 0 then S' + 1 else S' + ep * C in
+  (0 < m -> sidx = sg /\ 0 <= sg /\ ep < sg /\ S' + sg * C < e /\ range_len (S' + sg * C) e (C * c) = m) /\
+  (m = 0 -> e <= S' + sg * C).
+Proof.
+  intros HC Hc HL Hsg Hsidx Heidx Hm e.
+  split.
+  - intros Hm0. destruct Hm as [[_ Hm]|(Hlt & _ & Hm)]; [lia|].
+    assert (H0 : 0 <= sg) by lia. assert (H1 : sidx = sg) by lia. assert (H2 : ep < sg) by lia.
+    pose proof (mulr_le_neg C 0 sg HC H0) as H3.
+    assert (H4 : S' + sg * C < e).
+    { subst e. destruct (ep <? 0) eqn:E; [lia|].
+      pose proof (mulr_le_neg C (ep + 1) sg HC ltac:(lia)). lia. }
+    repeat split; try assumption.
+    replace (C * c) with ((- C) * (- c)) by ring.
+    apply core_asc with (t := sidx - eidx); [lia|lia|].
+    right. split; [lia|]. split; [assumption|]. rewrite H1.
+    subst e. destruct (ep <? 0) eqn:E.
+    + replace eidx with (-1) by lia. clear - HC. lia.
+    + replace eidx with ep by lia. clear - HC. lia.
+  - intros Hm0. destruct Hm as [[Hle _]|(_ & Hm1 & _)]; [|lia].
+    subst e. destruct (Z_lt_le_dec sg 0) as [H|H].
+    + pose proof (mulr_le_neg C sg (-1) HC ltac:(lia)).
+      destruct (ep <? 0) eqn:E; [lia|]. pose proof (mulr_le_neg C 0 ep HC ltac:(lia)). lia.
+    + assert (H1 : sg <= ep) by lia. replace (ep <? 0) with false by lia.
+      pose proof (mulr_le_neg C sg ep HC H1). lia.
+Qed.
+
+Lemma value_rr {A} fl v (p : list A) a b c v' :
+  WF v -> step v < 0 -> zlen p = seq_len v -> 0 < vlen v -> c < 0 ->
+  get_reverse_slice_from_reverse fl v
+    (match a with Some x => x | None => -1 end) (match b with Some x => x | None => - vlen v - 1 end) c = Ok v' ->
+  value v' p = py_slice (value v p) a b c.
+Proof.
+  intros Hwf HC Hp HL Hc.
+  destruct (wf_rev_facts v Hwf HC) as (Hn & HSE & HS1 & _ & _ & HLc).
+  rewrite (value_rev v p Hwf HC Hp).
+  rewrite py_slice_gather_prog;
+    [|lia|lia|intros i Hi; rewrite Hp; now apply value_rev_in_range].
+  unfold get_reverse_slice_from_reverse, rebuild. cbv zeta.
+  set (S := start v) in *. set (E := stop v) in *. set (C := step v) in *. set (L := vlen v) in *.
+  set (n := seq_len v) in *.
+  set (sidx := adjust_bound L c false a). set (eidx := adjust_bound L c true b).
+  set (m := range_len sidx eidx c).
+  destruct (rev_start_index L c a sidx Hc HL eq_refl) as (sg & Hsg & HsgL & Hsidx).
+  destruct (rev_stop_index L c b eidx Hc HL eq_refl) as (ep & Hep & Heidx & Hep1 & Hep2).
+  pose proof (range_len_neg_cases sidx eidx c Hc) as Hm. fold m in Hm.
+  set (a0 := match a with Some x => x | None => -1 end) in *.
+  set (b0 := match b with Some x => x | None => - L - 1 end) in *.
+  clearbody sidx eidx m S E C L n a0 b0.
+  set (s := if a0 >=? L then n + S + L * C + Z.abs C else if a0 >=? 0 then n + (S + a0 * C) else n + (S + L * C + a0 * C)).
+  assert (Hs : s = S + n + sg * C).
+  { subst s. clear - Hsg HC. destruct (a0 >=? L); [|destruct (a0 >=? 0)]; subst sg; lia. }
+  set (e0 := if b0 >=? 0 then n + (S + b0 * C) else n + (S + L * C + b0 * C)).
+  assert (He0 : e0 = S + n + ep * C).
+  { subst e0. clear - Hep. destruct (b0 >=? 0); subst ep; ring. }
+  destruct (rr_scale (S + n) C L c sg ep sidx eidx m HC Hc HL HsgL Hsidx Heidx Hm) as [Hpos Hzero].
+  cbv zeta in Hpos, Hzero.
+  set (e := if (b0 <? 0) && (e0 >? n + S) then n + S + 1 else e0).
+  assert (He : e = if ep <? 0 then S + n + 1 else S + n + ep * C).
+  { subst e. rewrite He0. clear - Hep1 Hep2 HC.
+    destruct (Z_lt_le_dec b0 0) as [Hb|Hb].
+    - replace (b0 <? 0) with true by lia. cbn [andb].
+      destruct (ep <? 0) eqn:E.
+      + pose proof (mulr_le_neg C ep (-1) HC ltac:(lia)). replace (S + n + ep * C >? n + S) with true by lia. ring.
+      + pose proof (mulr_le_neg C 0 ep HC ltac:(lia)). replace (S + n + ep * C >? n + S) with false by lia. reflexivity.
+    - replace (b0 <? 0) with false by lia. cbn [andb]. replace (ep <? 0) with false by lia. reflexivity. }
+  rewrite <- He in Hpos, Hzero. rewrite <- Hs in Hpos, Hzero.
+  assert (Hnz : 0 < m -> ~ (0 <= b0 /\ e0 <= n + E) /\ s < e /\ 0 <= s <= n - 1 /\ e <= n).
+  { intros Hm0. destruct (Hpos Hm0) as (_ & Hsg0 & Hepsg & Hse & _).
+    pose proof (mulr_le_neg C sg (L - 1) HC HsgL). pose proof (mulr_le_neg C ep (L - 1) HC ltac:(lia)).
+    pose proof (mulr_le_neg C 0 sg HC Hsg0).
+    assert (e <= S + n + 1).
+    { rewrite He. destruct (ep <? 0) eqn:E'; [lia|]. pose proof (mulr_le_neg C 0 ep HC ltac:(lia)). lia. }
+    clear - Hs He0 HSE HS1 HLc H H0 H1 H2 Hep1 Hepsg Hse. lia. }
+  clearbody s e e0.
+  destruct ((b0 >=? 0) && (e0 <=? n + E)) eqn:Ez0;
+    [intros Hz; rewrite (value_zero_slice fl v v' p Hz);
+     replace (Z.to_nat m) with O by lia; reflexivity|].
+  destruct ((e <? s) || (s >? n) || (Z.min s e <? 0)) eqn:Ez1;
+    [intros Hz; rewrite (value_zero_slice fl v v' p Hz);
+     replace (Z.to_nat m) with O by lia; reflexivity|].
+  intros Hmk.
+  assert (HCc : 0 < C * c) by (apply Z.mul_neg_neg; assumption).
+  rewrite (value_mk_view_step p n _ _ (C * c) _ v' Hp ltac:(clear - HCc; lia) Hmk).
+  rewrite py_slice_unfold, Hp.
+  rewrite !adj_pos_nonneg by (clear - HCc Hn Ez1; lia).
+  destruct (Z_lt_le_dec 0 m) as [Hm0|Hm0].
+  - destruct (Hpos Hm0) as (Hsx & _ & _ & _ & Hcount). destruct (Hnz Hm0) as (_ & _ & Hsn & Hen).
+    replace (Z.min n s) with s by (clear - Hsn; lia). replace (Z.min n e) with e by (clear - Hen; lia).
+    rewrite Hcount. apply gather_prog_eq; [reflexivity|]. intros _. rewrite Hs, Hsx. ring.
+  - assert (Hm1 : m = 0) by (destruct Hm as [[_ H]|(_ & H & _)]; lia).
+    rewrite (range_len_pos_empty (Z.min n s) (Z.min n e)) by (specialize (Hzero Hm1); clear - Hzero HCc; lia).
+    rewrite Hm1. reflexivity.
+Qed.
+
+(** * [__getitem__(slice)]: the headline theorem *)
+
+Lemma value_same_bounds {A} s c n off (p : list A) : c <> 0 -> value (mkV s s c n off) p = [].
+Proof.
+  intros Hc. unfold value. cbn [start stop step]. apply py_slice_empty.
+  assert (H : adjust_bound (zlen p) c true (Some s) = adjust_bound (zlen p) c false (Some s)) by reflexivity.
+  rewrite H. set (x := adjust_bound (zlen p) c false (Some s)).
+  destruct (Z_lt_le_dec 0 c); [apply range_len_pos_empty|apply range_len_neg_empty]; lia.
+Qed.
+
+Lemma value_empty {A} v (p : list A) : WF v -> vlen v = 0 -> value v p = [].
+Proof.
+  intros Hwf H0. pose proof (proj1 (wf_empty_iff v Hwf) H0) as Hse.
+  destruct v as [s e c n off]. cbn [start stop] in Hse. subst e.
+  apply value_same_bounds. exact (wf_step_nz _ Hwf).
+Qed.
+
+Lemma py_slice_same_bounds {A} (l : list A) x c : c <> 0 -> py_slice l (Some x) (Some x) c = [].
+Proof.
+  intros Hc. apply py_slice_empty.
+  assert (H : adjust_bound (zlen l) c true (Some x) = adjust_bound (zlen l) c false (Some x)) by reflexivity.
+  rewrite H. set (y := adjust_bound (zlen l) c false (Some x)).
+  destruct (Z_lt_le_dec 0 c); [apply range_len_pos_empty|apply range_len_neg_empty]; lia.
+Qed.
+
+(** a copy of an empty view is empty (whatever it is read from) *)
+Lemma mk_view_same_bounds n s K off v : 0 <= n -> K <> 0 ->
+  mk_view n (Some s) (Some s) (Some K) off = Ok v -> start v = stop v.
+Proof.
+  intros Hn HK. rewrite (mk_view_step_unfold n _ _ K off HK).
+  assert (HAB : adjust_bound n K true (Some s) = adjust_bound n K false (Some s)) by reflexivity.
+  destruct (Z_lt_le_dec 0 K) as [HK'|HK'].
+  - replace (K >? 0) with true by lia. rewrite (ivp_spec n _ _ K HK' Hn), HAB.
+    rewrite Z.ltb_irrefl. intros [= <-]. reflexivity.
+  - assert (HK'' : K < 0) by lia. replace (K >? 0) with false by lia.
+    destruct (input_vals_neg_step n (Some s) (Some s) K) as [[s1 e1] K1] eqn:E.
+    pose proof (ivn_spec n _ _ K s1 e1 K1 HK'' Hn E) as Hsp. rewrite HAB in Hsp.
+    intros [= <-]. cbn [start stop]. lia.
+Qed.
+
+Lemma value_copy_view {A} fl v v' (p : list A) : WF v -> Fits v p ->
+  copy_view fl v = Ok v' -> value v' p = value v p.
+Proof.
+  intros Hwf Hfit. destruct fl; cbn [copy_view]; [|now intros [= <-]].
+  intros Hmk. pose proof (wf_step_nz v Hwf) as Hnz.
+  destruct Hfit as [H0|Hp].
+  - rewrite (value_empty v p Hwf H0).
+    pose proof (proj1 (wf_empty_iff v Hwf) H0) as Hse. rewrite <- Hse in Hmk.
+    pose proof (mk_view_same_bounds _ _ _ _ _ (proj1 Hwf) Hnz Hmk) as Hse'.
+    pose proof (wf_mk_view_lemma _ _ _ _ _ _ (proj1 Hwf) Hmk) as Hwf'.
+    apply value_empty; [assumption|]. now apply (wf_empty_iff v' Hwf').
+  - rewrite (value_mk_view_step p (seq_len v) _ _ (step v) _ v' Hp Hnz Hmk). reflexivity.
+Qed.
+
+Definition step_of (c : option Z) : Z := match c with Some k => k | None => 1 end.
+
+Lemma value_getitem_slice_lemma {A} fl v (p : list A) a b c v' :
+  WF v -> Fits v p -> c <> Some 0 ->
+  getitem_slice fl v a b c = Ok v' ->
+  value v' p = py_slice (value v p) a b (step_of c).
+Proof.
+  intros Hwf Hfit Hc.
+  assert (Hmain : (if vlen v =? 0 then Ok v else
+      if opt_eqb a b then zero_slice fl v else
+      let slice_step := match c with None => 1 | Some x => x end in
+      if slice_step >? 0 then get_slice fl v a b slice_step
+      else if slice_step <? 0 then get_reverse_slice fl v a b slice_step
+      else Err E_Value) = Ok v' -> value v' p = py_slice (value v p) a b (step_of c)).
+  { destruct (vlen v =? 0) eqn:E0.
+    { intros [= <-]. rewrite (value_empty v p Hwf ltac:(lia)). now rewrite py_slice_nil. }
+    assert (HL : 0 < vlen v) by (pose proof (vlen_nonneg v); lia).
+    assert (Hp : zlen p = seq_len v) by (destruct Hfit; [lia|assumption]).
+    assert (Hk : step_of c <> 0) by (destruct c as [k|]; cbn; [congruence|lia]).
+    destruct (opt_eqb a b) eqn:Eab.
+    { intros Hz. rewrite (value_zero_slice fl v v' p Hz).
+      destruct a as [x|]; [|discriminate]. destruct b as [y|]; [|discriminate].
+      cbn in Eab. assert (x = y) by lia. subst y. now rewrite py_slice_same_bounds. }
+    cbv zeta. fold (step_of c). set (k := step_of c) in *.
+    pose proof (wf_step_nz v Hwf) as Hnz.
+    destruct (k >? 0) eqn:Ek.
+    - unfold get_slice. destruct (step v >? 0) eqn:Es.
+      + apply value_ff; try assumption; lia.
+      + replace (step v <? 0) with true by lia. apply value_fr; try assumption; lia.
+    - replace (k <? 0) with true by lia. unfold get_reverse_slice.
+      destruct (step v <? 0) eqn:Es.
+      + apply value_rr; try assumption; lia.
+      + replace (step v >? 0) with true by lia. apply value_rf; try assumption; lia. }
+  unfold getitem_slice.
+  destruct a; [exact Hmain|]. destruct b; [exact Hmain|]. destruct c; [exact Hmain|].
+  intros Hcp. rewrite (value_copy_view fl v v' p Hwf Hfit Hcp). cbn [step_of]. now rewrite py_slice_full.
+Qed.
+
+(** the parent may be forgotten only by an empty view *)
+Lemma seq_len_mk_view n a b c off v : mk_view n a b c off = Ok v -> seq_len v = n /\ offset v = off.
+Proof.
+  unfold mk_view. destruct c as [[|k|k]|]; [discriminate| | |];
+    (destruct (if _ >? 0 then _ else _) as [[s1 e1] c1]; intros [= <-]; split; reflexivity).
+Qed.
+
+Lemma vlen_copy_view fl v v' : WF v -> vlen v = 0 -> copy_view fl v = Ok v' -> vlen v' = 0.
+Proof.
+  intros Hwf H0. destruct fl; cbn [copy_view]; [|now intros [= <-]].
+  intros Hmk. pose proof (wf_step_nz v Hwf) as Hnz.
+  pose proof (proj1 (wf_empty_iff v Hwf) H0) as Hse. rewrite <- Hse in Hmk.
+  pose proof (mk_view_same_bounds _ _ _ _ _ (proj1 Hwf) Hnz Hmk) as Hse'.
+  pose proof (wf_mk_view_lemma _ _ _ _ _ _ (proj1 Hwf) Hmk) as Hwf'.
+  now apply (wf_empty_iff v' Hwf').
+Qed.
+
+Lemma shape_getitem_slice fl v a b c v' :
+  WF v -> getitem_slice fl v a b c = Ok v' ->
+  (vlen v' = 0 \/ (seq_len v' = seq_len v /\ offset v' = offset v)) /\ (vlen v = 0 -> vlen v' = 0).
+Proof.
+  intros Hwf.
+  assert (Hz : forall w, zero_slice fl v = Ok w -> vlen w = 0 \/ (seq_len w = seq_len v /\ offset w = offset v)).
+  { intros w. rewrite zero_slice_eq. intros [= <-]. left. reflexivity. }
+  assert (Hr : forall s e k w, rebuild v s e k = Ok w -> vlen w = 0 \/ (seq_len w = seq_len v /\ offset w = offset v)).
+  { intros s e k w H. right. exact (seq_len_mk_view _ _ _ _ _ _ H). }
+  assert (Hmain : (if vlen v =? 0 then Ok v else
+      if opt_eqb a b then zero_slice fl v else
+      let slice_step := match c with None => 1 | Some x => x end in
+      if slice_step >? 0 then get_slice fl v a b slice_step
+      else if slice_step <? 0 then get_reverse_slice fl v a b slice_step
+      else Err E_Value) = Ok v' ->
+      (vlen v' = 0 \/ (seq_len v' = seq_len v /\ offset v' = offset v)) /\ (vlen v = 0 -> vlen v' = 0)).
+  { destruct (vlen v =? 0) eqn:E0; [intros [= <-]; split; [right; split; reflexivity|tauto]|].
+    intros H. split; [|lia]. revert H.
+    destruct (opt_eqb a b); [apply Hz|].
+    cbv zeta. set (k := match c with None => 1 | Some x => x end).
+    destruct (k >? 0).
+    - unfold get_slice. destruct (step v >? 0).
+      + unfold get_forward_slice_from_forward.
+        repeat match goal with |- (if ?x then zero_slice _ _ else _) = _ -> _ =>
+          destruct x; [apply Hz|] end.
+        apply Hr.
+      + destruct (step v <? 0); [|discriminate].
+        unfold get_forward_slice_from_reverse.
+        repeat match goal with |- (if ?x then zero_slice _ _ else _) = _ -> _ =>
+          destruct x; [apply Hz|] end.
+        apply Hr.
+    - destruct (k <? 0); [|discriminate].
+      unfold get_reverse_slice. destruct (step v <? 0).
+      + unfold get_reverse_slice_from_reverse. cbv zeta.
+        repeat match goal with |- (if ?x then zero_slice _ _ else _) = _ -> _ =>
+          destruct x; [apply Hz|] end.
+        apply Hr.
+      + destruct (step v >? 0); [|discriminate].
+        unfold get_reverse_slice_from_forward. cbv zeta.
+        repeat match goal with |- (if ?x then zero_slice _ _ else _) = _ -> _ =>
+          destruct x; [apply Hz|] end.
+        apply Hr. }
+  unfold getitem_slice.
+  destruct a; [exact Hmain|]. destruct b; [exact Hmain|]. destruct c; [exact Hmain|].
+  intros Hcp. split.
+  - right. destruct fl; cbn [copy_view] in Hcp; [exact (seq_len_mk_view _ _ _ _ _ _ Hcp)|].
+    inversion Hcp; subst; split; reflexivity.
+  - intros H0. exact (vlen_copy_view fl v v' Hwf H0 Hcp).
+Qed.
+
+Lemma fits_getitem_slice {A} fl v (p : list A) a b c v' :
+  WF v -> Fits v p -> getitem_slice fl v a b c = Ok v' -> Fits v' p.
+Proof.
+  intros Hwf Hfit H. destruct (shape_getitem_slice fl v a b c v' Hwf H) as [[H0|[Hn _]] Hz].
+  - left; exact H0.
+  - destruct Hfit as [H0|Hp]; [left; exact (Hz H0)|right; congruence].
+Qed.
+
+(** * non-vacuity: concrete instances of the hypotheses, evaluated *)
+
+Definition ex_p : list Z := [65; 67; 71; 84; 65; 67; 71; 84; 78; 82].       (* "ACGTACGTNR" *)
+Definition ex_v : view := mkV (-2) (-9) (-3) 10 17.                         (* [8:1:-3], offset 17 *)
+Definition ex_v3 : view := mkV 5 9 3 10 17.                                 (* ...[::-1][1:] *)
+
+Example ex_mk_view : mk_view (zlen ex_p) (Some 8) (Some 1) (Some (-3)) 17 = Ok ex_v.
+Proof. reflexivity. Qed.
+
+Example ex_wf : WF ex_v /\ Fits ex_v ex_p /\ WF ex_v3.
+Proof.
+  unfold WF, Fits, ex_v, ex_v3. cbn [start stop step seq_len].
+  split; [lia|]. split; [right; reflexivity|lia].
+Qed.
+
+(** a reversed strided view of a 10-mer; a 3-deep chain evaluates as Python
+    does: "ACGTACGTNR"[8:1:-3] = "NCG", [::-1] = "GCN", [1:] = "CN" *)
+Example ex_chain :
+  value ex_v ex_p = [78; 67; 71] /\ vlen ex_v = 3 /\
+  bind (getitem_slice FSeqView ex_v None None (Some (-1)))
+       (fun v2 => getitem_slice FSeqView v2 (Some 1) None None) = Ok ex_v3 /\
+  value ex_v3 ex_p = [67; 78].
+Proof. repeat split. Qed.
